@@ -18,6 +18,9 @@ CHECKS = {
  'C07': dict(cat='proof', tech='contract-based deductive verification: configuration logic of tsc_parallel (real AST slice), stripe-geometry lemma over the C06 spline spec, _tsc_parallel bounds/phases and prange footprint disjointness against the callee frame of _tsc_scatter; z3; deterministic per-stripe row-overlap replay',
     text='Every accepted configuration with >1 thread and >1 stripe has an even number of stripes of width >= 3 cells (default choice accepted, all n1d/nthread/npartition, coord 0..2); lemma: distinct stripes of equal parity share no grid row for offsets in [0,1/2] incl. the periodic wrap and the closed last stripe (tight: refutable at width 2); _tsc_parallel: slices in bounds, iteration footprints pairwise disjoint, so every interleaving equals the sequential loop. The final summation over stripes (parallel == serial deposit) is a corollary of C06 additivity + the phase-cover lemma, not a machine-checked postcondition.',
     note='floats as reals (tight at width 3); prange meta-theorem trusted; partition postcondition (C17) used as precondition of _tsc_parallel', ref='6/C07'),
+ 'C17': dict(cat='proof', tech='contract-based deductive verification: real partition_parallel AST against a stable-counting-sort spec (ghost prefix counts H/G, DEST), loop invariants for both prange passes and inner loops, prange footprint disjointness, inductive lemmas (monotonicity, split, total, injectivity, prefix link) in z3/cvc5; numpy prefix-sum idiom as an assumed block contract; bounded compiled cross-check',
+    text='For all inputs (any N incl. 0, npartition >= 1, coord, weights on/off, every nthread >= 1): keys = clamped floor(x*np/box) in range, psort[DEST(q)] = pos[q], wsort[DEST(q)] = weights[q], starts[k] = #{key < k}, starts[np] = N, non-decreasing; DEST injective, in range, stable and inside its stripe (lemmas by induction); inputs unmodified; all subscripts in bounds; int32 stores fit; iteration footprints of both parallel passes disjoint. sort=True and float edge effects only bounded.',
+    note='assumed: np.linspace/astype monotone 0..N, cumsum-reshape-transpose idiom = (stripe, thread)-ordered exclusive prefix sums, np.empty/zeros; floats as reals; L2 (injective self-map of a finite set is a permutation, Lean-checked statement) ; prange meta-theorem', ref='6/C17'),
 }
 NOT_YET = {}
 props = [json.loads(l) for l in open(os.path.join(HERE, 'properties.jsonl'))]
